@@ -184,6 +184,8 @@ def unary_ops(subsample=True):
             L.append(('rename_swap', ax, inpl))
             L.append(('rename_rot', ax, inpl))
             L.append(('rename_collide', ax, inpl))
+            L.append(('rename_empty', ax, inpl))
+            L.append(('rename_extra', ax, inpl))
             L.append(('filter_rev2', ax, inpl))
         L.append(('sort', ax))
         L.append(('rev', ax))
@@ -323,6 +325,23 @@ def apply(op, t, m, strict=True):
                 raise Refuse()
             mm = None       # follow mode: let the implementation refuse; the state it leaves is judged
         return Res(t.update_ids(dict(mp), axis=ax, strict=False, inplace=op[2]), mm, op[2])
+    if n == 'rename_empty':
+        # the empty mapping with strict=False renames nothing
+        ax = op[1]
+        return Res(t.update_ids({}, axis=ax, strict=False, inplace=op[2]), m, op[2])
+    if n == 'rename_extra':
+        # a mapping with an entry for an id the table does not have, whose new name repeats a used one: the
+        # unused entry is ignored (strict=False), the renaming itself is injective
+        ax = op[1]
+        if not m.ids(ax):
+            raise Refuse()
+        f = m.ids(ax)[-1]
+        new = 'w' if 'w' not in m.ids(ax) else 'ww'
+        if new in m.ids(ax):
+            raise Refuse()
+        mp = {f: new, 'not_in_table': new}
+        return Res(t.update_ids(dict(mp), axis=ax, strict=False, inplace=op[2]),
+                   X(lambda: m.update_ids(ax, {f: new}, False)), op[2])
     if n == 'rename_collide':
         # a partial renaming onto a retained id: must be refused (and, in place, leave the table as it was)
         ax = op[1]
